@@ -12,7 +12,7 @@ COQ_TARGETS = ["Properties/C04.vo"]
 
 RULE = ("case = shape x byte string: valid encodings of random values; truncations at every prefix length and extensions; "
         "single-field corruption of every length / unsized-size / element-count / offset / length-copy / discriminant / bool "
-        "field with values {0,1,field+-1,255,2^16-1,2^31,2^32-1,2^63+1,2^64-1 (as width allows)}; random bytes. The input "
+        "field with values {0,1,field+-1,255,2^16-1,2^31,2^32-1,2^63+1,2^64-1 (as width allows)}; pairs (an offset entry pushed beyond the data + a length/size field enlarged); whole offset tables displaced; random bytes. The input "
         "ends exactly at a PROT_NONE page and each case runs in a forked child (SIGSEGV = observation). Observed: outcome "
         "and value of the owned conversion, then the shared view's extent and every element each shared accessor / iterator "
         "yields with an inside-the-input flag. non-trivial = input that is neither a valid encoding nor rejected at the first "
@@ -66,6 +66,20 @@ def gen_cases(rng, tier):
                     b2 = list(bs)
                     b2[pos:pos + w] = U.le(x, w)
                     add(idx, desc, b2)
+            # two fields at once: an offset (an element's start or - as the NEXT entry - its end bound) pushed beyond the
+            # data, together with a length / size field that then claims bytes outside the element's real slot
+            offs2 = [f for f in fields if f[2] == "off"]
+            lens2 = [f for f in fields if f[2] in ("len", "usz", "ulen")]
+            if offs2 and lens2 and j < 4:
+                pairs = [(o, l) for o in offs2 for l in lens2]
+                if len(pairs) > 12:
+                    pairs = [rng.choice(pairs) for _ in range(12)]
+                for (opos, ow, _), (lpos, lw, _) in pairs:
+                    for odelta, lval in ((400, 100), (40, 255), (4000, 2 ** (8 * lw) - 1), (7, 9)):
+                        b2 = list(bs)
+                        b2[opos:opos + ow] = U.le((U.unle(bs[opos:opos + ow]) + odelta) % 2 ** 32, ow)
+                        b2[lpos:lpos + lw] = U.le(lval % 256 ** lw, lw)
+                        add(idx, desc, b2)
             # a whole offset table displaced (several fields at once): every element lies elsewhere
             offs = [f for f in fields if f[2] == "off"]
             if offs and j < 3:
